@@ -47,8 +47,8 @@ def run(v, tier):
     rng = random.Random(pi2v.SEED)
     v.assumptions += ['truth tables over the metavariables of the formula (TLC); bottom = mu X0 . X0',
                       'returned proofs are replayed on the machine for a sample only (they are thousands of instructions long)']
-    fs = formulas(2 if quick else 3, 2) + [rand_formula(rng, 3, 3) for _ in range(250 if quick else 6000)] + \
-         [rand_formula(rng, 4, 3) for _ in range(30 if quick else 3000)]
+    fs = formulas(2 if quick else 3, 2) + [rand_formula(rng, 3, 3) for _ in range(250 if quick else 2500)] + \
+         [rand_formula(rng, 4, 3) for _ in range(30 if quick else 400)]
     # named shapes: many trivially true clauses, first clause re-derived, duplicated literals
     A, B_, C = M(0), M(1), M(2)
     lem_ = lambda x: N['or'](x, N['neg'](x))
@@ -61,10 +61,10 @@ def run(v, tier):
         if k not in seen:
             seen.add(k); uniq.append(f)
     fs = uniq
-    ntrace = 6 if quick else 80
+    ntrace = 6 if quick else 30
     small = [i for i, f in enumerate(fs) if len(tkey(f)) < 1500]      # replay only proofs of small formulas (traces are huge)
     tr_idx = set(rng.sample(small, min(ntrace, len(small))))
-    nst = 250 if quick else len(fs)
+    nst = 250 if quick else 1500
     st_idx = set(rng.sample(range(len(fs)), min(nst, len(fs))))
     reqs = [{'cmd': 'taut', 'pat': f, 'stages': i in st_idx, 'trace': i in tr_idx} for i, f in enumerate(fs)]
     res = lem.run_applications(reqs)
